@@ -7,8 +7,8 @@ echo "[" > $out.tmp
 first=1
 while read patch ids; do
   [ -z "$patch" ] && continue
-  cd /repo; [ -n "$(git status --porcelain)" ] && { echo "repo dirty"; exit 2; }
-  git apply /verif/$patch || { echo "cannot apply $patch"; cd /verif; continue; }
+
+
   cd /verif
   for id in $ids; do
     o=$(VERIF_NO_EVIDENCE=1 bin/vcheck $id --tier quick 2>/dev/null); code=$?
